@@ -10,6 +10,14 @@ CHECKS = {
    text="Every (CRC register state, next byte) transition of the proxy's table-driven CRC and every key of length <=3, every placement of braces over a 4-letter alphabet up to length 9, and PRNG binary keys are compared with an independent bitwise reference; exhaustive for the enumerated sub-spaces, sampling beyond them.",
    note="Trusted: the 12-line bitwise CRC and tag rule in cmd/vcheck/c12.go, anchored by published vectors; keys longer than 3 bytes are covered by the byte-wise fold argument plus random sampling only.",
    ref="DESIGN.md section 4 C12"),
+ "C10": dict(level="exploration", technique="reference-model oracle (independent RESP codec + strconv) over PRNG and boundary values, streams under scripted chunkings x buffer sizes, late re-comparison for aliasing; -race/checkptr child",
+   text="Round trip, canonical re-encode, chunk-independence over {whole,1-byte,every 2-way split,PRNG,CR|LF} x reader buffers {32..8192}, inline==array, btoi64/itoa vs strconv (exhaustive on small alphabets and [-300,33000]); values re-compared after the whole stream is decoded.",
+   note="Trusted: internal/resp (harness codec) and strconv. Says nothing about values/chunkings not generated; evidence lists classes covered.",
+   ref="DESIGN.md section 4 C10"),
+ "C01": dict(level="exploration", technique="per-connection order/exactly-once oracle over echo-mode backend histories (unique request ids, sentinel per pipeline), plain and -race SUT child",
+   text="Concurrent connections send fragmented pipelines (depth 1-300) of every request class to the real proxy in front of 3-6 simulated nodes that echo what they received, with PRNG reply delays and consistent re-shards; the k-th parsed reply must be the pure-function expected reply of the k-th request, sentinel proves no extra/missing reply. Evidence counts backend-completion inversions and redirects actually observed.",
+   note="Trusted: simulated echo nodes, harness RESP codec. Race reports are deciding only inside proc/redis/request.go.",
+   ref="DESIGN.md section 4 C01"),
 }
 NOT_BUILT = "check not built yet in this session (design in DESIGN.md section 4)"
 
